@@ -99,7 +99,8 @@ def run(ctx):
         "a call still blocked 15 s after teardown began is stranded (parked callers use 60 s timeouts; the iteration is re-run alone before a verdict)",
         "parked-caller state is read from Transport::Impl under its own syncMutex (-fno-access-control, observation only); a destroying "
         "teardown is only issued once the raw-pointer callers are verifiably parked (an unparked raw-pointer caller racing a destructor is the caller's bug)",
-        "onData delivered on a caller's own thread inside its own setReadMode(Sync->Async) call is not counted as a callback after stop()",
+        "the callback fence covers setReadMode(Sync->Async) flusher threads: an onData entered before stop() returned and still running is counted, "
+        "an onData ENTERED after stop() returned is a violation on any thread",
         "start() is never issued concurrently with other calls (documented lifecycle contract); stop()/destruction are",
         "TSan reports without any iora frame in either access stack are counted and dropped",
     ]
@@ -110,6 +111,7 @@ def run(ctx):
            "impl_freed", "storm_ops_issued_after_teardown_began", "callbacks_entered_while_stop_in_progress",
            "send_false", "addListener_refused", "connect_refused", "condvar_prepark_delays",
            "connectSync_returned_ShuttingDown_parked", "receiveSync_returned_PeerClosed_parked", "receiveSync_returned_ShuttingDown_parked",
+           "second_chunk_buffered_while_flusher_in_data_callback", "flusher_still_inside_onData_entered_before_stop_returned",
            "edge_callers_started", "post_unlock_holds", "edge_connectSync_returned_Timeout", "edge_connectSync_returned_ShuttingDown",
            "edge_receiveSync_returned_Timeout", "teardown_began_with_connectSync_caller_past_its_expiry_not_yet_returned",
            "teardown_began_with_receiveSync_caller_past_its_expiry_not_yet_returned"]
